@@ -35,6 +35,8 @@ SPECIAL["group_one_child_maybe_unpainted"] = doc('<g opacity="{o1}">' + rr(' fil
 SPECIAL["group_both_children_maybe_unpainted"] = doc('<g opacity="{o1}">' + LINE + LINE2 + "</g>" + rr(' fill="red"')[0])
 SPECIAL["group_child_transparent"] = doc('<g opacity="{o1}">' + rr(' fill="red"', ' fill="blue" opacity="{o2}"')[0] + rr(' fill="red"', ' fill="blue" opacity="{o2}"')[1] + "</g>")
 SPECIAL["nested_groups_inner_emptied"] = doc('<g opacity="{o1}">' + rr(' fill="red"')[0] + '<g opacity="{o2}">' + LINE + LINE2 + "</g></g>")
+SPECIAL["nested_groups_outer_loses_shape"] = doc('<g opacity="{o1}"><g opacity="{o2}">' + rr(' fill="red"', ' fill="blue"')[0] + rr(' fill="red"', ' fill="blue"')[1] + "</g>" + LINE + "</g>")
+SPECIAL["nested_groups_three_deep"] = doc('<g opacity="{o1}"><g opacity="{o2}"><g opacity="{o3}">' + rr(' fill="red"', ' fill="blue"')[0] + rr(' fill="red"', ' fill="blue"')[1] + "</g>" + LINE + "</g>" + LINE2 + "</g>")
 # --- unsupported / ignored content (C01) ------------------------------------------------
 SPECIAL["comment_pi_foreign"] = (
     '<?xml version="1.0"?><?xpacket begin="x"?><svg xmlns="http://www.w3.org/2000/svg" xmlns:xlink="http://www.w3.org/1999/xlink" '
